@@ -25,9 +25,9 @@ type Gate struct {
 	isOpen  bool
 	changed chan struct{} // closed and replaced at every state change
 
-	waiting  []chan struct{} // one channel per parked call, for selective release
-	inflight int             // calls inside the proxy (parked or running the delegate)
-	parked   int             // calls waiting on the gate
+	waiting  []waiter // one channel per parked call, for selective release
+	inflight int      // calls inside the proxy (parked or running the delegate)
+	parked   int      // calls waiting on the gate
 	entries  int64
 	exits    int64
 	maxIn    int
@@ -38,6 +38,11 @@ type Gate struct {
 	labelCount map[string]int64
 	inLabels   map[string]int // labels of the calls currently inside
 	markLabels []string       // labels inside at the moment of Mark
+}
+
+type waiter struct {
+	ch  chan struct{}
+	key string
 }
 
 // NewGate returns a gate; open decides its initial state.
@@ -73,11 +78,26 @@ func (g *Gate) ReleaseN(n int) int {
 	defer g.mu.Unlock()
 	k := 0
 	for k < n && len(g.waiting) > 0 {
-		close(g.waiting[0])
+		close(g.waiting[0].ch)
 		g.waiting = g.waiting[1:]
 		k++
 	}
 	return k
+}
+
+// ReleaseKey lets the parked call that entered with the given key go (the gate
+// stays shut) and reports whether such a call was parked.
+func (g *Gate) ReleaseKey(key string) bool {
+	g.mu.Lock()
+	defer g.mu.Unlock()
+	for i, w := range g.waiting {
+		if w.key == key {
+			close(w.ch)
+			g.waiting = append(g.waiting[:i], g.waiting[i+1:]...)
+			return true
+		}
+	}
+	return false
 }
 
 // Shut makes later calls park.
@@ -94,6 +114,11 @@ func (g *Gate) Shut() {
 // Through records entry of a call, parks it while the gate is shut (only if
 // park is true) and returns the function recording its exit.
 func (g *Gate) Through(label string, park bool) (exit func()) {
+	return g.ThroughKey(label, "", park)
+}
+
+// ThroughKey is Through for a call that can be released individually by key.
+func (g *Gate) ThroughKey(label, key string, park bool) (exit func()) {
 	g.mu.Lock()
 	g.inflight++
 	g.entries++
@@ -111,7 +136,7 @@ func (g *Gate) Through(label string, park bool) (exit func()) {
 		g.parked++
 		if !g.isOpen {
 			own = make(chan struct{})
-			g.waiting = append(g.waiting, own)
+			g.waiting = append(g.waiting, waiter{own, key})
 		}
 	}
 	g.bump()
@@ -128,7 +153,7 @@ func (g *Gate) Through(label string, park bool) (exit func()) {
 		g.mu.Lock()
 		g.parked--
 		for i, w := range g.waiting {
-			if w == own {
+			if w.ch == own {
 				g.waiting = append(g.waiting[:i], g.waiting[i+1:]...)
 				break
 			}
